@@ -3,6 +3,7 @@ mod act;
 mod adv;
 mod c08;
 pub mod engine;
+mod model;
 mod monitors;
 mod props;
 mod sim;
